@@ -147,6 +147,10 @@ WHITELIST = {
     "_ZSt18_Rb_tree_decrementPSt18_Rb_tree_node_base": "std::map iterator step: reads only",
     "_ZSt18_Rb_tree_incrementPSt18_Rb_tree_node_base": "std::map iterator step: reads only",
 }
+# libm leaves (float / double / long double variants): pure computations
+LIBM_OK = re.compile(r"^(a?sinh?|a?cosh?|a?tanh?|atan2|exp|exp2|expm1|log|log2|log10|log1p|pow|sqrt|cbrt|hypot|fabs|fmod|fmax|fmin|fdim|"
+                     r"floor|ceil|round|trunc|rint|nearbyint|lround|llround|lrint|llrint|copysign|ldexp|frexp|modf|remainder|fma|"
+                     r"scalbn|logb|ilogb|erf|erfc|tgamma|lgamma|nan|isnan|isinf|finite)[fl]?$")
 INTRINSIC_OK = re.compile(r"^llvm\.(memcpy|memmove|memset|lifetime|stacksave|stackrestore|va_start|va_end|va_copy|"
                           r"assume|experimental\.noalias|dbg\.|ctlz|cttz|ctpop|bswap|fabs|floor|ceil|round|rint|nearbyint|trunc|"
                           r"sqrt|fma|fmuladd|minnum|maxnum|copysign|umin|umax|smin|smax|abs|usub|uadd|ssub|sadd|umul|smul|"
@@ -168,9 +172,9 @@ class TranslatorError(Exception):
 # step 1: IR
 # ---------------------------------------------------------------------------------------
 def sources():
-    repo = vlib.REPO
-    c = [s for s in vlib.LIB_C]
-    return c, list(CXX_SOURCES)
+    """All C sources of the library (so that a helper moved between C files stays inside the graph) and the two
+    C++ sources of the realtime path."""
+    return list(vlib.LIB_C), list(CXX_SOURCES)
 
 
 def build_ir():
@@ -573,6 +577,8 @@ def classify_external(name):
             return "forbidden", why
     if name in WHITELIST:
         return "whitelist", WHITELIST[name]
+    if LIBM_OK.match(name):
+        return "whitelist", "libm leaf"
     if name.startswith("llvm."):
         if INTRINSIC_OK.match(name):
             return "whitelist", "LLVM intrinsic (lowered to inline code or to memcpy/memset/memmove)"
